@@ -38,6 +38,27 @@ mod verif_kani {
         core::mem::forget(args);
     }
 
+    //@harness props=C04,C12 kind=bounded fns=Arguments::shift_token_line bound="a string call argument `f\"a\"` whose token carries a symbolic line below 2^40, amount symbolic in 1..2^20" budget=400
+    //@ desc="shift exactly once: Arguments::shift_token_line leaves the token of a string argument alone -- the string expression is a node of its own and the ShiftTokenLine visitor shifts it there; shifting it here as well would move it twice"
+    #[kani::proof]
+    #[kani::unwind(4)]
+    fn vk_args_shift_string_argument_once() {
+        let amount: isize = kani::any();
+        kani::assume(amount >= 1 && amount < (1 << 20));
+        let line: usize = kani::any();
+        kani::assume(line < (1 << 40));
+        let mut args = Arguments::String(StringExpression::from_value(vec![b'a']).with_token(tok(line)));
+        args.shift_token_line(amount);
+        match &args {
+            Arguments::String(s) => {
+                assert!(s.get_token().unwrap().get_line_number() == Some(line), "C04: the argument node does not shift the token owned by the string node");
+            }
+            _ => assert!(false),
+        }
+        kani::cover!(true);
+        core::mem::forget(args);
+    }
+
     // MEASURED, out of reach: the macro-generated clear_comments / clear_whitespaces of
     // TupleArgumentsTokens on three tokens with three trivia each (ENUMERATED shape) runs CBMC out of
     // memory (10 GB); the per-token functions are under contract in contracts/token.rs.
